@@ -354,6 +354,8 @@ func checkMain(args []string) int {
 	var traces []trc
 	nextID := 0
 	var inconclusive []string
+	raceSeen := map[string]bool{}
+	racePerLabel := map[string]int{}
 	for _, r := range results {
 		if r.err != "" || r.out == nil || r.out.Result == nil {
 			inconclusive = append(inconclusive, fmt.Sprintf("harness=%s reason=%s", r.spec.Fn, oneLine(r.err)))
@@ -361,6 +363,15 @@ func checkMain(args []string) int {
 		}
 		res := r.out.Result
 		for _, v := range res.Violations {
+			if v.Kind == "race" {
+				// one candidate per harness-level input signature, at most 8 per label
+				sig := v.Harness + "|" + v.Label + "|" + inputSignature(v.Model)
+				if raceSeen[sig] || racePerLabel[v.Harness+"|"+v.Label] >= 8 {
+					continue
+				}
+				raceSeen[sig] = true
+				racePerLabel[v.Harness+"|"+v.Label]++
+			}
 			cands = append(cands, cand{v, r.spec, nextID})
 			nextID++
 		}
@@ -771,7 +782,9 @@ func nativeReplay(repo, scratch, pkg, pkgName, intr string, harnessFiles, fns, s
 		cmd.Dir = filepath.Join(repo, pkg)
 		cmd.Env = append(os.Environ(), "VERIF_REPLAY_FILE="+cf, "VERIF_REPLAY_ONLY="+only, "GORACE=halt_on_error=0")
 		if race {
-			cmd.Env = append(cmd.Env, "VERIF_REPLAY_TRIES=400")
+			// stop at the first report: the remaining cases are rerun one by one below
+			cmd.Env = append(cmd.Env, "GORACE=halt_on_error=1")
+			cmd.Env = append(cmd.Env, "VERIF_REPLAY_TRIES=40", "VERIF_AMPLIFY=64")
 		}
 		out, _ := cmd.CombinedOutput()
 		return string(out)
@@ -836,6 +849,25 @@ func nativeReplay(repo, scratch, pkg, pkgName, intr string, harnessFiles, fns, s
 	}
 	os.Remove(bin)
 	return res, nil
+}
+
+// inputSignature: the harness-level inputs of a model (everything but scheduling, map-order,
+// select, crash and fault choices), in a canonical order.
+func inputSignature(m map[string]string) string {
+	var ks []string
+	for k := range m {
+		base := k
+		if i := strings.IndexByte(k, '#'); i >= 0 {
+			base = k[:i]
+		}
+		switch base {
+		case "sched", "maporder", "select", "crash", "fault", "__ops", "__tier":
+			continue
+		}
+		ks = append(ks, k+"="+m[k])
+	}
+	sort.Strings(ks)
+	return strings.Join(ks, ",")
 }
 
 func lastLines(s string, n int) string {
